@@ -30,6 +30,8 @@ structure Rec where
   /-- search (kinds whose score is the metric distance): the queries and the scored hits -/
   qs : List F32.Vec := []
   scored : List (Nat × UInt32) := []
+  /-- search: score aggregation over the queries (sum | max | mean) -/
+  agg : String := "sum"
 
 structure St where
   kind : String
@@ -80,67 +82,77 @@ def visFail (kind : String) (h : List HOp) : Option String :=
 
 def overlaps (a b : Rec) : Bool := decide (a.inv < b.resp) && decide (b.inv < a.resp)
 
-/-- the allowed-error rule; returns (violations, 0) -/
+/-- The allowed-error rule.  Whether a failing response is legitimate is decided from the
+    SITUATION, never from the error's wording (any outcome other than `ok` / `panic` is "an
+    error", whatever its text says; the class the harness derives from the text is only a
+    histogram flag):
+    * a failing `Remove(id)` is legitimate iff, under the visibility rule, `id` could have been
+      absent or already removed at some point of the call's interval — i.e. it is NOT the case
+      that an add of `id` completed before the call began while no successful removal of `id`
+      began before the call ended (consequence of no_spurious_error / Good.addedStored);
+      a successful `Remove(id)` needs an add of `id` that began before it ended;
+    * a failing Add / search / Flush / WriteTo is legitimate iff the same call fails
+      sequentially.  The stream only issues calls that succeed sequentially (right dimension,
+      non-zero vectors, trained indexes), so the one legitimate situation is the store after
+      `Close` began (before the call ended).
+    Returns (violations, 0). -/
 def judgeErrors (kind : String) (rs : List Rec) : List String × Nat :=
   let closeInv : Option Nat := (rs.find? (·.op == "close")).map (·.inv)
-  let closedOK (r : Rec) : Bool := match closeInv with
+  let closing (r : Rec) : Bool := kind == "store" && match closeInv with
     | some c => decide (c < r.resp)
     | none => false
   rs.foldl (fun (acc : List String × Nat) r =>
     let fail (why : String) := (s!"{why} {r.op}({r.id}) g={r.g} @[{r.inv},{r.resp}] => {r.out}" :: acc.1, acc.2)
     if r.out == "panic" then fail "panic"
-    else if r.out == "closed" then (if kind == "store" && closedOK r then acc else fail "spurious-closed")
     else match r.op with
-    | "add" =>
-      if r.out == "ok" then acc
-      else if r.out == "frozen" then
-        -- since 22d1a03 the queue lock covers pick, frozen check and write: no add may fail so
-        fail "add-failed-memtable-is-frozen"
-      else fail "spurious-error"
     | "remove" =>
-      if kind == "store" || kind == "bm25" || kind == "meta" then
-        -- store: Remove looks at the mutable memtable only (sequential quirk, C08); bm25 / meta: always nil
-        (if r.out == "ok" || kind == "store" then acc else fail "spurious-error")
+      if kind == "store" then acc   -- the store's Remove looks at the mutable memtable only (sequential quirk, C08)
       else if r.out == "ok" then
-        if rs.any fun a => a.op == "add" && a.id == r.id && decide (a.inv < r.resp) then acc
+        if kind == "bm25" || kind == "meta" then acc   -- these never report absence
+        else if rs.any fun a => a.op == "add" && a.id == r.id && decide (a.inv < r.resp) then acc
         else fail "remove-ok-of-never-added"
-      else if r.out == "notfound" then
+      else
         let addedBefore := rs.any fun a => a.op == "add" && a.out == "ok" && a.id == r.id && decide (a.resp < r.inv)
-        let removedFlushed := rs.any fun m => m.op == "remove" && m.out == "ok" && m.id == r.id && decide (m.inv < r.resp) &&
-          (kind == "hybrid" ||   -- hybrid forgets the document at Remove (docInfo)
-           rs.any fun f => (f.op == "flush" || f.op == "write" || f.op == "add") && decide (f.inv < r.resp) && decide (m.inv < f.resp))
-        if addedBefore && !removedFlushed then fail "spurious-notfound" else acc
-      else if r.out == "deleted" then
-        if rs.any fun m => m.op == "remove" && m.out == "ok" && m.id == r.id && (m.g != r.g || m.inv != r.inv) && decide (m.inv < r.resp)
-        then acc else fail "spurious-already-deleted"
-      else fail "spurious-error"
-    | _ => if r.out == "ok" then acc else fail "spurious-error") ([], 0)
+        let removalBegun := rs.any fun m => m.op == "remove" && m.out == "ok" && m.id == r.id &&
+          (m.g != r.g || m.inv != r.inv) && decide (m.inv < r.resp)
+        if addedBefore && !removalBegun then fail "remove-failed-on-a-document-that-was-live-throughout" else acc
+    | "close" =>
+      -- a Close may only fail because another Close began before it ended
+      if r.out == "ok" || (kind == "store" && rs.any fun c => c.op == "close" && (c.g != r.g || c.inv != r.inv) && decide (c.inv < r.resp))
+      then acc else fail "spurious-error"
+    | _ => if r.out == "ok" || closing r then acc else fail "spurious-error") ([], 0)
 
-/-- Scores (flat, IVF, HNSW, hybrid over flat; metric l2, default sum aggregation): every hit's
+/- Scores (flat, IVF, HNSW, hybrid over flat; metric l2, default sum aggregation): every hit's
     score must be the metric distance between the logged query and a vector the harness added
     under that id — bit for bit (Comet.F32 replicates distance.go exactly).  With two queries
     (one read-locked region each) a document may be seen by one or both: d₁, d₂ or d₁ + d₂.
     A search overwritten by another goroutine's candidates (shared scratch memory) fails here. -/
+/-- non-empty subsequences (a document may be seen by any non-empty subset of the queries: the
+    read lock is taken once per query) -/
+def subseqs {α} : List α → List (List α)
+  | [] => []
+  | x :: xs => let r := subseqs xs; [x] :: (r.map (x :: ·)) ++ r
+
+def aggScore (agg : String) (ds : List UInt32) : UInt32 :=
+  let fs := ds.map F32.f
+  match agg with
+  | "max" => F32.b (fs.tail.foldl (fun m x => if x > m then x else m) (fs.headD 0))
+  | "mean" => F32.b (fs.foldl (· + ·) 0 / Float32.ofNat fs.length)
+  | _ => F32.b (fs.foldl (· + ·) 0)
+
 def scoreFail (rs : List Rec) : Option String :=
   let vecsOf (id : Nat) : List F32.Vec := rs.filterMap fun r => if r.op == "add" && r.id == id then r.vec else none
   let dist (q v : F32.Vec) : UInt32 := F32.b (F32.euclid q v)
-  let okHit (qs : List F32.Vec) (id : Nat) (sc : UInt32) : Bool :=
+  let okHit (agg : String) (qs : List F32.Vec) (id : Nat) (sc : UInt32) : Bool :=
     let vs := vecsOf id
     vs.isEmpty ||   -- unknown id: V3 (phantom) is judged by the visibility check
-    vs.any fun v =>
-      match qs with
-      | [q] => dist q v == sc
-      | [q1, q2] =>
-        let d1 := dist q1 v
-        let d2 := dist q2 v
-        d1 == sc || d2 == sc || F32.b (F32.f d1 + F32.f d2) == sc
-      | _ => true
+    vs.any fun v => (subseqs (qs.map fun q => dist q v)).any fun ds => aggScore agg ds == sc
   rs.findSome? fun r =>
-    if r.op != "search" || r.qs.isEmpty then none else
-    match r.scored.find? fun (id, sc) => !okHit r.qs id sc with
+    if r.op != "search" || r.qs.isEmpty || r.qs.length > 4 then none else
+    match r.scored.find? fun (id, sc) => !okHit r.agg r.qs id sc with
     | some (id, sc) =>
       let want := (vecsOf id).map fun v => r.qs.map fun q => hex32 (dist q v)
-      some s!"search g={r.g} @[{r.inv},{r.resp}] returned id {id} with score {hex32 sc}, the distance(s) to that document are {want}"
+      some s!"search g={r.g} @[{r.inv},{r.resp}] ({r.agg} over {r.qs.length} queries) returned id {id} with score {hex32 sc}, the distance(s) to that document are {want}"
     | none => none
 
 def dupOf : List Nat → Option Nat
@@ -160,6 +172,9 @@ def judge (st : St) : String :=
       match errs with
       | e :: _ => s!"SPECFAIL no_spurious_error {e}"
       | [] =>
+        match rs.findSome? fun r => if r.op == "search" then (dupOf r.res).map fun d => s!"search g={r.g} @[{r.inv},{r.resp}] returned id {d} twice" else none with
+        | some w => s!"SPECFAIL lin_visibility duplicate {w}"
+        | none =>
         match scoreFail rs with
         | some w => s!"SPECFAIL score_is_distance a search returned a score that is not the distance to that document: {w}"
         | none =>
@@ -173,7 +188,9 @@ def judge (st : St) : String :=
           let rem := rs.any fun r => r.op == "remove" && r.out == "ok"
           let ne := searches.any fun s => !s.res.isEmpty
           let nscored := (searches.map (·.scored.length)).foldl (· + ·) 0
-          let flags := s!"ops={rs.length} searches={searches.length} autoids={st.autoIds.length} scoredhits={nscored} " ++
+          let classes := ((rs.filter fun r => r.out != "ok").map fun r => (r.out.splitOn ":").headD "other").eraseDups
+          let clsFlags := " ".intercalate (classes.map fun c => s!"errclass_{c}=1")
+          let flags := clsFlags ++ " " ++ s!"ops={rs.length} searches={searches.length} autoids={st.autoIds.length} scoredhits={nscored} " ++
             s!"overlap_sw={if ov then 1 else 0} overlap_ww={if ovw then 1 else 0} removed={if rem then 1 else 0} nonempty={if ne then 1 else 0}"
           if known > 0 then s!"SPECFAIL no_spurious_error frozen={known}" else s!"ok {flags}"
 
@@ -196,7 +213,11 @@ def op (st : St) (toks : List String) : St × String :=
       let qs : Option (List F32.Vec) := match rest with
         | [] => some []
         | [q] => (q.splitOn ";").mapM parseVec
+        | [q, _] => (q.splitOn ";").mapM parseVec
         | _ => none
+      let agg : String := match rest with
+        | [_, a] => a
+        | _ => "sum"
       -- hits: `id` or `id:scorehex`, comma separated
       let hits : Option (List (Nat × Option UInt32)) :=
         if outc != "ok" then some [] else
@@ -212,7 +233,7 @@ def op (st : St) (toks : List String) : St × String :=
       | some qs, some hits =>
         let scored := hits.filterMap fun (i, sc) => sc.map fun sc => (i, sc)
         ({ st with recs := { g := g, op := "search", inv := inv, resp := resp, out := outc,
-                             res := hits.map (·.1), qs := qs, scored := scored } :: st.recs }, "ok")
+                             res := hits.map (·.1), qs := qs, scored := scored, agg := agg } :: st.recs }, "ok")
       | _, _ => ({ st with bad := some "search line" }, "BADOP search line")
     | _, _, _ => ({ st with bad := some "search" }, "BADOP search")
   | name :: g :: id :: inv :: resp :: rest =>
